@@ -187,7 +187,10 @@ def scn_grid_clip(c, conv, buffered):
     ny, nx = ds.info['shape']['face']
     g = SVal(z3.FreshConst(GeomSort, 'clip'))
     buf = sym_size(c, 'buffer', 1) if buffered else 0
+    from pyvc.api import check_unmodified, snapshot
+    snap = snapshot(ds)
     m = expect_ok(c, 'make_clip_mask returns', lambda: method(it, cv, 'make_clip_mask', g, buffer=buf))
+    check_unmodified(c, ds, snap, 'the dataset a mask is made for')
     polys = abstract_polygons(cv)
     q = [e for e in c.events if e[0] == 'STRtree.query']
     c.check('cells are found with one spatial query of the clip geometry using the intersects predicate (touching counts)',
